@@ -68,7 +68,8 @@ def check(case):
         got = sorted(sorted(s.name for s in c) for c in g.connected_components())
         if got != want:
             fail("components-differ", "want %s got %s" % (want, got))
-        for s in g.segments:
+        allsegs = list(g.segments)
+        for s in (allsegs if len(allsegs) <= 50 else [allsegs[0], allsegs[len(allsegs) // 2], allsegs[-1]]):      # (each query walks the whole component)
             cls = sorted(x.name for x in g.segment_connected_component(s))
             w = [c for c in want if s.name in c][0]
             if cls != w:
@@ -114,6 +115,14 @@ def cases(tier, seed):
                 lines.append("P\tpz\tA+\t*" if version == "gfa1" else "O\tpz\tA+")      # a named line that is not a segment (no effect on the topology)
             rm = rng.choice([None, None, rng.choice(segs)])
             out.append((version, lines, rm, rng.choice(["direct", "direct", "copy"])))
+    # graphs much larger than the sampled ones: a chain and a ring of 1200 segments (deeper than the interpreter's recursion limit), two chains
+    for version, seg, link in (("gfa1", lambda i: "S\ts%d\t*" % i, lambda i, j: "L\ts%d\t+\ts%d\t+\t*" % (i, j)),
+                               ("gfa2", lambda i: "S\ts%d\t8\t*" % i, lambda i, j: "E\t*\ts%d+\ts%d+\t6\t8$\t0\t2\t*" % (i, j))):
+        n_big = 1200
+        chain = [seg(i) for i in range(n_big)] + [link(i, i + 1) for i in range(n_big - 1)]
+        out.append((version, chain, None, "direct"))
+        out.append((version, chain + [link(n_big - 1, 0)], "s7", "direct"))
+        out.append((version, [l for l in chain if l != link(700, 701)], None, "direct"))
     return out
 
 
@@ -123,5 +132,5 @@ if __name__ == "__main__":
     res = harness.run(cs, check,
                       rule="seeded random graphs: 1-4 segments, 0-5 edges from an orientation-complete pool (GFA1: L for every segment pair incl. self-links and hairpins, C; GFA2: E lines for every orientation pair x "
                            "interval kinds pfx/sfx/whole/inner on both sides), optionally followed by rm of one segment, and in a third of the cases rebuilt line by line from clones (g2.add_line(l.clone())); oracle = union-find over the dovetail records of the (text-model) document and record counts. "
-                           "distinct = distinct (document, removal)", bound="<=4 segments, <=5 edges, <=1 removal", exhaustive=False)
+                           "distinct = distinct (document, removal)", bound="<=4 segments, <=5 edges, <=1 removal; plus 3 graphs of 1200 segments per version (chain, ring, two chains)", exhaustive=False)
     harness.emit(res)
